@@ -6,6 +6,7 @@ import Driver.NamesDrv
 import FlexiVerif.Model.Buf
 import FlexiVerif.Model.Fmt
 import FlexiVerif.Model.ErrChan
+import FlexiVerif.Model.Syslog
 /-
   Line-protocol driver: reads cases from stdin, answers every line with one line.
 
@@ -78,6 +79,11 @@ def stepLine (st : MSt) (line : String) : MSt × String :=
         match msgs.mapM Drv.hexToText with
         | some ms => (st, Drv.textToHex (ms.flatMap (fun m => FV.Fmt.frame ['\n'] m)))
         | none => (st, "bad-op")
+      -- one record through a real SyslogWriter: the PRI value of the line and the message
+      | ["SYSLOGLINE", _hdr, fac, lvl, msg] =>
+        match fac.toNat?, lvl.toNat?, Drv.hexToText msg with
+        | some fac, some lvl, some m => (st, s!"pri={FV.Syslog.pri fac lvl} msg={Drv.textToHex m}")
+        | _, _, _ => (st, "bad-op")
       -- the error channel: the reports of the reference run (an openable error file), routed by the
       -- model to the channel under test
       | ["ERRCHANOBS", ch, evs] =>
